@@ -1078,7 +1078,50 @@ def run_c13(ctx):
     bmroot = v.root_place({"l": bt["dest"]["l"], "p": []})
     ok = emitted is not None and len(emitted) == 2 and emitted[0] == bmroot.with_path(("0",)) and emitted[1] == bmroot.with_path(("1",))
     ctx.ob("C13-b", "the closure emits [cos component, sin component] in this order", ok, clo.path, "bm-emission-order", detail="emitted %r" % (emitted,))
-    # c: consumption nest in gauss
+    consumption_nest(ctx, gauss, "C13-c")
+
+    def d():
+        e = gaussian_pair_count(ctx, gauss)
+        n = Expr.symbol("D") * Expr.symbol("L")
+        want = Expr.atom(("call", "idiv", n + Expr.atom(("call", "mod", n, Expr.const(2))), Expr.const(2)))
+        compare(ctx, "C13-d", "pair count == (D·L + (D·L mod 2)) div 2", e, want, gauss.path, "pair-count", {}, ())
+    guarded_clause(ctx, "C13-d", gauss.path, "pair-count", d)
+    ctx.rule("C13-e", "the pairs are the TAIL of a get_dimension()-long point and the reported vectors are the routine's: 2·pairs equals the Gaussian "
+                      "term of get_dimension (restated from C14-g), the Gaussian routine is the last reader in sample, Metadata.q_vectors is its result")
+
+    def e_sibling():
+        pairs = gaussian_pair_count(ctx, gauss)
+        dimfn, dim = dimension_formula(ctx)
+        n = Expr.symbol("D") * Expr.symbol("L")
+        gterm = n + Expr.atom(("call", "mod", n, Expr.const(2)))
+        compare(ctx, "C13-e", "get_dimension == 2E − 1 + D·L + (D·L mod 2)", dim, Expr.const(2) * Expr.symbol("E") - Expr.const(1) + gterm, dimfn.path,
+                "dimension-formula", {}, ())
+        compare(ctx, "C13-e", "pairs == (Gaussian term of get_dimension) div 2", pairs, Expr.atom(("call", "idiv", gterm, Expr.const(2))), gauss.path,
+                "gaussian-count-sibling", {}, ())
+    restated_clause(ctx, "C13-e", gauss.path, "tail-agreement", e_sibling)
+
+    def e_():
+        s_ = R.sample()
+        sv = Vals(s_)
+        from .common import built_structs
+        gsites = [(bi, t) for bi, t, cb in R.local_callees(s_) if cb is gauss]
+        sidom = cfg.dominators(s_)
+        later = [pat.where(t) for bi, t, cb in R.local_callees(s_) if cb is not gauss and gsites and cfg.dominates(sidom, gsites[0][0], bi)
+                 and any(rd_ in (cb.local_ty(i + 1)) for i in range(cb.arg_count) for rd_ in [R.reader_adt()["adt"]])]
+        ctx.ob("C13-e", "the Gaussian routine is called once and no reader call follows it", len(gsites) == 1 and not later, s_.path, "gauss-is-last-reader",
+               detail="calls %d, later reader calls %s" % (len(gsites), later))
+        for bj, sj, st in built_structs(f, R, s_, "Metadata"):
+            rv = st["rv"]
+            if "q_vectors" in rv["fields"] and gsites:
+                r_ = sv.root(rv["ops"][rv["fields"].index("q_vectors")])
+                ctx.ob("C13-e", "Metadata.q_vectors is the Gaussian routine's result", r_ == Root(("call", gsites[0][0])), s_.path, "metadata-q-vectors",
+                       where=pat.where(st), detail="Metadata.q_vectors has provenance %r, the Gaussian routine is called at bb%d" % (r_, gsites[0][0]))
+    guarded_clause(ctx, "C13-e", gauss.path, "tail-and-report", e_)
+
+
+def consumption_nest(ctx, gauss, RID="C13-c"):
+    """One element of the pair stream per innermost (component) iteration, loop-major: component (l, i) is element l·D + i."""
+    from .. import cfg
     from . import common
     gv = Vals(gauss)
     nexts = [(bi, t) for bi, t in gauss.calls() if callee_is(t, trait="Iterator", name="next") and "FlatMap" in (t["callee"].get("self_ty") or "")]
@@ -1127,45 +1170,82 @@ def run_c13(ctx):
             push_ok = len(pushes) == 1 and sum(1 for _h, bl in lps if pushes[0][0] in bl) == 1
         ok = ok and store_ok and push_ok
         det += "; stored at vec[i]: %s; one push per loop vector: %s" % (store_ok, push_ok)
-    ctx.ob("C13-c", "one element is taken per innermost (component) iteration, loop-major", ok, gauss.path, "gaussian-consumption", detail=det)
+    if not ok:
+        # the same nest with the outer loop written as `(0..L).map(|_| { for i in 0..D { v[i] = next } v }).collect()`: `map` over a
+        # range evaluated by `collect` calls the closure once per loop, in order
+        ok2, det2 = _consumption_nest_closure_form(ctx, gauss, gv)
+        if ok2:
+            ok, det = True, det2
+        else:
+            det += " | closure form: " + det2
+    ctx.ob(RID, "one element is taken per innermost (component) iteration, loop-major", ok, gauss.path, "gaussian-consumption", detail=det)
 
-    def d():
-        e = gaussian_pair_count(ctx, gauss)
-        n = Expr.symbol("D") * Expr.symbol("L")
-        want = Expr.atom(("call", "idiv", n + Expr.atom(("call", "mod", n, Expr.const(2))), Expr.const(2)))
-        compare(ctx, "C13-d", "pair count == (D·L + (D·L mod 2)) div 2", e, want, gauss.path, "pair-count", {}, ())
-    guarded_clause(ctx, "C13-d", gauss.path, "pair-count", d)
-    ctx.rule("C13-e", "the pairs are the TAIL of a get_dimension()-long point and the reported vectors are the routine's: 2·pairs equals the Gaussian "
-                      "term of get_dimension (restated from C14-g), the Gaussian routine is the last reader in sample, Metadata.q_vectors is its result")
 
-    def e_sibling():
-        pairs = gaussian_pair_count(ctx, gauss)
-        dimfn, dim = dimension_formula(ctx)
-        n = Expr.symbol("D") * Expr.symbol("L")
-        gterm = n + Expr.atom(("call", "mod", n, Expr.const(2)))
-        compare(ctx, "C13-e", "get_dimension == 2E − 1 + D·L + (D·L mod 2)", dim, Expr.const(2) * Expr.symbol("E") - Expr.const(1) + gterm, dimfn.path,
-                "dimension-formula", {}, ())
-        compare(ctx, "C13-e", "pairs == (Gaussian term of get_dimension) div 2", pairs, Expr.atom(("call", "idiv", gterm, Expr.const(2))), gauss.path,
-                "gaussian-count-sibling", {}, ())
-    restated_clause(ctx, "C13-e", gauss.path, "tail-agreement", e_sibling)
 
-    def e_():
-        s_ = R.sample()
-        sv = Vals(s_)
-        from .common import built_structs
-        gsites = [(bi, t) for bi, t, cb in R.local_callees(s_) if cb is gauss]
-        sidom = cfg.dominators(s_)
-        later = [pat.where(t) for bi, t, cb in R.local_callees(s_) if cb is not gauss and gsites and cfg.dominates(sidom, gsites[0][0], bi)
-                 and any(rd_ in (cb.local_ty(i + 1)) for i in range(cb.arg_count) for rd_ in [R.reader_adt()["adt"]])]
-        ctx.ob("C13-e", "the Gaussian routine is called once and no reader call follows it", len(gsites) == 1 and not later, s_.path, "gauss-is-last-reader",
-               detail="calls %d, later reader calls %s" % (len(gsites), later))
-        for bj, sj, st in built_structs(f, R, s_, "Metadata"):
-            rv = st["rv"]
-            if "q_vectors" in rv["fields"] and gsites:
-                r_ = sv.root(rv["ops"][rv["fields"].index("q_vectors")])
-                ctx.ob("C13-e", "Metadata.q_vectors is the Gaussian routine's result", r_ == Root(("call", gsites[0][0])), s_.path, "metadata-q-vectors",
-                       where=pat.where(st), detail="Metadata.q_vectors has provenance %r, the Gaussian routine is called at bb%d" % (r_, gsites[0][0]))
-    guarded_clause(ctx, "C13-e", gauss.path, "tail-and-report", e_)
+def _consumption_nest_closure_form(ctx, gauss, gv):
+    from . import common
+    from .. import cfg
+    f = ctx.facts
+    closures = list(f.closures_of(gauss.path))
+    sites = []
+    for b in [gauss] + closures:
+        for bi, t in b.calls():
+            if callee_is(t, trait="Iterator", name="next") and "FlatMap" in (t["callee"].get("self_ty") or ""):
+                sites.append((b, bi, t))
+    if len(sites) != 1 or sites[0][0] is gauss:
+        return False, "%d next() calls on the pair iterator in the routine and its closures" % len(sites)
+    B, nb, nt = sites[0]
+    vb = Vals(B)
+    heads = [h for h in common.loop_next_sites(B, vb) if "Range" in (h[4]["callee"].get("self_ty") or "")]
+    lps = cfg.loops(B)
+    depth = sum(1 for _h, bl in lps if nb in bl)
+    if len(heads) != 1 or depth != 1:
+        return False, "the closure holding next() has %d range loops, next() at depth %d" % (len(heads), depth)
+    h = heads[0]
+
+    def range_of(body, v, head):
+        itr = v.root(head[4]["args"][0])
+        for d in v.defs.get(itr.base[1], []) if itr.kind == "local" else []:
+            if d[0] == "stmt" and d[3]["k"] == "use":
+                t2 = v.call_term(v.root(d[3]["op"]))
+                if t2 is not None and callee_is(t2, trait="IntoIterator", name="into_iter"):
+                    r3 = v.root(t2["args"][0])
+                    rv = v.rvalue_of(r3) if r3.kind == "local" else None
+                    if rv is not None and rv["k"] == "aggregate" and "end" in rv.get("fields", []):
+                        return rv["ops"][rv["fields"].index("start")], rv["ops"][rv["fields"].index("end")]
+        return None
+    rg = range_of(B, vb, h)
+    if rg is None:
+        return False, "inner range not found"
+    start, end = rg
+    const_d = end["k"] == "const" and ("tyconst" in end or end.get("disp", "").replace("const ", "").strip() == "D")
+    zero = start["k"] == "const" and start.get("int") == "0"
+    ivar = vb.root_place({"l": h[4]["dest"]["l"], "p": []}).with_path(("as:Some", "0"))
+    store_ok = any(callee_is(t2, trait="IndexMut", name="index_mut") and "Vector" in (t2["callee"].get("self_ty") or "") and len(t2["args"]) == 2
+                   and vb.root(t2["args"][1]) == ivar and sum(1 for _h, bl in lps if bi2 in bl) == 1 for bi2, t2 in B.calls())
+    # the closure returns the vector it filled, once per call
+    ret_vec = "Vector" in B.local_ty(0)
+    # in the routine: map(Range{0, L-parameter}, this closure) then collect
+    maps = []
+    for bi, t in gauss.calls():
+        if callee_is(t, trait="Iterator", name="map") and len(t["args"]) == 2:
+            cr = gv.root(t["args"][1])
+            rv = gv.rvalue_of(cr) if cr.kind == "local" else None
+            if rv and rv["k"] == "aggregate" and rv.get("agg") == "closure" and rv.get("closure") == B.path:
+                maps.append((bi, t))
+    if len(maps) != 1:
+        return False, "the closure is not the argument of exactly one map()"
+    src = gv.root(maps[0][1]["args"][0])
+    srv = gv.rvalue_of(src) if src.kind == "local" else None
+    outer_ok = False
+    if srv is not None and srv["k"] == "aggregate" and "end" in srv.get("fields", []):
+        s0, e0 = srv["ops"][srv["fields"].index("start")], srv["ops"][srv["fields"].index("end")]
+        outer_ok = s0["k"] == "const" and s0.get("int") == "0" and e0["k"] in ("copy", "move") and gv.root(e0).kind == "arg"
+    collected = any(callee_is(t, trait="Iterator", name=("collect", "collect_vec")) or (t.get("callee") or {}).get("name") in ("collect", "collect_vec")
+                    for _bi, t in gauss.calls())
+    ok = const_d and zero and store_ok and ret_vec and outer_ok and collected
+    return ok, ("closure form: inner 0..D:%s/%s, stored at vec[i]:%s, closure returns the vector:%s, mapped over 0..L(parameter):%s, collected:%s"
+                % (zero, const_d, store_ok, ret_vec, outer_ok, collected))
 
 
 def dimension_formula(ctx):
